@@ -669,6 +669,8 @@ def finish(ctx: Ctx, mod) -> int:
     }
     ev_dir = os.path.join(VERIF, "evidence") if os.path.realpath(REPO) == "/repo" else os.path.join(VERIF, "replays", "scratch-evidence")
     os.makedirs(ev_dir, exist_ok=True)
+    if "exhaustive" in ev["coverage"] and not isinstance(ev["coverage"]["exhaustive"], bool):
+        ev["coverage"]["exhaustive_detail"] = ev["coverage"].pop("exhaustive")
     with open(os.path.join(ev_dir, ctx.prop + ".json"), "w") as f:
         json.dump(ev, f, indent=1, sort_keys=True, default=str)
         f.write("\n")
